@@ -193,6 +193,9 @@ func caseKey(c *Case) string {
 // ReadCases parses an ndjson case file emitted by TLC.
 func ReadCases(path string) []Case {
 	f, err := os.Open(path)
+	if os.IsNotExist(err) {
+		return nil // a model that proves invariants only and emits no cases
+	}
 	if err != nil {
 		Fatal("open cases: %v", err)
 	}
